@@ -26,14 +26,14 @@ PROP = dict(
     assumptions=['key/response structures are zero-initialised before parsing, as every in-tree caller does',
                  'input buffers are exact-size heap copies without a terminating NUL (the APIs take pointer+length)'],
     targets=[
-        T('c09_x509_cert', 'x509_cert.cc', 10, 350, max_len=70000),   # > 64 KiB: 16-bit psSize_t wrap with the bytes really present
+        T('c09_x509_cert', 'x509_cert.cc', 10, 350, max_len=70000, seeds=650),   # > 64 KiB: 16-bit psSize_t wrap with the bytes really present
         T('c09_x509_pem_bundle', 'x509_pem_bundle.cc', 7, 130),
-        T('c09_crl', 'crl.cc', 8, 320, max_len=70000),
+        T('c09_crl', 'crl.cc', 8, 320, max_len=70000, seeds=470),
         T('c09_ocsp_response', 'ocsp_response.cc', 8, 200, max_len=70000, seeds=770),
         T('c09_pkcs8', 'pkcs8.cc', 6, 430, timeout=60, wraps=['psSha1Final'], seeds=95),
-        T('c09_pkcs12', 'pkcs12.cc', 8, 220, timeout=60, wraps=['psSha1Final']),
+        T('c09_pkcs12', 'pkcs12.cc', 8, 220, timeout=60, wraps=['psSha1Final'], seeds=300),
         T('c09_privkey_any', 'privkey_any.cc', 7, 500, timeout=60, wraps=['psSha1Final'], seeds=540),
-        T('c09_pubkey_any', 'pubkey_any.cc', 7, 1100),
+        T('c09_pubkey_any', 'pubkey_any.cc', 7, 1100, seeds=150),
         T('c09_dh_params', 'dh_params.cc', 4, 2700),
         T('c09_pem_decode', 'pem_decode.cc', 6, 2000),
         T('c09_load_keys_mem', 'load_keys_mem.cc', 8, 560, timeout=60, wraps=['psSha1Final'], seeds=70),
